@@ -96,6 +96,17 @@ pub fn replay(args: &[String], out: &mut Out) {
             }
             check_one(out, n, want, &leaves, json!({"n": n, "seed": seed, "j": j}), j == 0);
         }
+        // leaves are arbitrary 32-byte strings: an all-zero leaf (the value the function returns for the empty list) at every
+        // position, and the all-zero list, must be hashed like any other
+        if n >= 1 && n <= 33 {
+            let mut r = rng(seed, 0x2e70_0000 + n as u64);
+            for z in 0..=n {
+                let mut leaves = rand_leaves(&mut r, n);
+                if z == n { for l in leaves.iter_mut() { *l = [0u8; 32]; } } else { leaves[z] = [0u8; 32]; }
+                let want = eval(&c["term"], &leaves);
+                check_one(out, n, want, &leaves, json!({"n": n, "seed": seed, "zero_leaf_at": z}), false);
+            }
+        }
         out.count("distinct_n");
         if n == 5 || n == 11 {
             out.sample(json!({"n": n, "term": c["term"]}));
